@@ -615,8 +615,18 @@ func propC18(g *G, w *CaseW, rep *Report, thorough bool) {
 			uris = append(uris, "sip:"+s)
 		}
 	})
+	// tel: texts, whose components need not lie in struct order (F18: tel:@l:@+491752)
+	enumStrings(uriAlpha, scale(thorough, 3, 4), func(s string) {
+		if r := parseURI([]byte("tel:" + s)); r.Err == 0 && r.Panic == "" {
+			uris = append(uris, "tel:"+s)
+		}
+	})
+	uris = append(uris, "tel:@l:@+491752", "tel:@:@1", "tel:a:@b:@+1;x")
 	for i := 0; i < scale(thorough, 600, 6000); i++ {
 		s := g.uri()
+		if g.p(15) {
+			s = g.mutate(s)
+		}
 		if r := parseURI([]byte(s)); r.Err == 0 && r.Panic == "" {
 			uris = append(uris, s)
 		}
